@@ -5,4 +5,5 @@ export GOFLAGS=-mod=mod GOPROXY=off GOSUMDB=off GOTOOLCHAIN=local
 cp /repo/go.sum ./go.sum.repo 2>/dev/null
 mkdir -p bin evidence replays
 go build -tags verif -o bin/verif ./cmd/verif || exit 1
+go build -race -tags verif -o bin/verif-race ./cmd/verif || echo "setup: race build failed (C07 will skip its race pass)"
 echo "setup: bin/verif built"
